@@ -310,6 +310,8 @@ class Function:
                         n[k] = S[n[k]]
                 if 'cta' in n:
                     n['cta'] = [S[x] for x in n['cta']]
+                if 'lams' in n:
+                    n['lams'] = [S[x] for x in n['lams']]
                 if 'cn' in n:
                     n['cnf'] = n['cn']
                     n['cn'] = strip_targs(n['cn'])
